@@ -12,6 +12,9 @@
 (*   Out(len, eq)      the call returned a buffer of len bytes; eq = its   *)
 (*                     content is the next len bytes of the stream         *)
 (*   Err               the call returned an error                          *)
+(*   Timeout           a Read call failed with a deadline error (transport *)
+(*                     runs on a harness conn with real deadlines)         *)
+(*   Close             the owner closed the connection                     *)
 (*   anything else (Panic, Hang) is not an action: the trace is rejected   *)
 (*                                                                         *)
 (* (ii) writer runs: every Write call a real writer (WriteRawMsgToTCP,     *)
@@ -41,7 +44,7 @@ Keep == UNCHANGED <<wire, wst, wlen, written, dropped, pos, delivered, hist>>
 ResetReader ==
     /\ IsEvent("Stream")
     /\ mode' = "reader" /\ want' = <<>>
-    /\ minAcc' \in BOOLEAN /\ rd' = Fresh /\ closed' = FALSE /\ outcome' = "run" /\ Keep
+    /\ minAcc' \in BOOLEAN /\ rd' = Fresh /\ closed' = FALSE /\ outcome' = "run" /\ tmo' = FALSE /\ Keep
 
 Boundary(r) == r.st = "hdr" /\ r.h = <<>> /\ r.inbuf = <<>>
 
@@ -56,11 +59,21 @@ Reader ==
           /\ Ev.len >= MIN /\ (Ev.len = MIN => minAcc)
           /\ rd' = AfterDeliver(rd, minAcc) /\ rd'.st # "bad"
           /\ UNCHANGED <<closed, outcome>>
+       \* a Read call failed with a deadline error: between frames that is nobody's business; inside a
+       \* frame either the stream is given up (error, final) or a resumable reader keeps its partial state
+       \/ /\ IsEvent("Timeout") /\ outcome = "run"
+          /\ \/ UNCHANGED outcome
+             \/ MidFrame(rd) /\ outcome' = "err"
+          /\ UNCHANGED <<rd, closed>>
+       \* the connection was closed by its owner / a caller got an error: nothing to check
+       \/ /\ IsEvent("Close") /\ UNCHANGED <<rd, closed, outcome>>
+       \/ /\ IsEvent("Err") /\ outcome = "err" /\ UNCHANGED <<rd, closed, outcome>>
        \/ /\ IsEvent("Err") /\ outcome = "run"
           /\ \/ rd.st = "err" /\ outcome' = "err"
              \/ closed /\ rd.inbuf = <<>> /\ rd.st \in {"hdr", "body"}
                 /\ outcome' = IF Boundary(rd) THEN "eof" ELSE "err"
           /\ UNCHANGED <<rd, closed>>
+    /\ tmo' = (tmo \/ (l <= Len(Trace) /\ Ev.ev = "Timeout" /\ outcome = "run" /\ outcome' = "err"))
 
 RemoveOne(s, x) ==
     LET i == CHOOSE j \in 1..Len(s) : s[j] = x IN SubSeq(s, 1, i - 1) \o SubSeq(s, i + 1, Len(s))
@@ -69,10 +82,10 @@ Has(s, x) == \E j \in 1..Len(s) : s[j] = x
 ResetWriter ==
     /\ IsEvent("Conn")
     /\ mode' = "writer" /\ want' = Ev.sizes
-    /\ rd' = Fresh /\ closed' = FALSE /\ outcome' = "run" /\ UNCHANGED minAcc /\ Keep
+    /\ rd' = Fresh /\ closed' = FALSE /\ outcome' = "run" /\ tmo' = FALSE /\ UNCHANGED minAcc /\ Keep
 
 Writer ==
-    /\ mode = "writer" /\ UNCHANGED <<mode, minAcc, rd, closed, outcome>> /\ Keep
+    /\ mode = "writer" /\ UNCHANGED <<mode, minAcc, rd, closed, outcome, tmo>> /\ Keep
     /\ \/ /\ IsEvent("Write")
           /\ WholeFrameLen(Ev.n, Ev.h)          \* OneWriteOneFrame
           /\ Ev.n - 2 <= MAX /\ Ev.eq /\ Has(want, Ev.n - 2)
